@@ -65,12 +65,13 @@ type obj struct {
 
 // World is one real Broker plus the harness objects registered with it.
 type World struct {
-	cfg   *Config
-	b     *eventlogger.Broker
-	log   *hn.Log
-	cur   map[string]int  // id -> number of successful registrations
-	objs  map[string]*obj // "id#ver" -> object
-	tries map[string]int  // id -> attempts (for concretisation only)
+	napply int
+	cfg    *Config
+	b      *eventlogger.Broker
+	log    *hn.Log
+	cur    map[string]int  // id -> number of successful registrations
+	objs   map[string]*obj // "id#ver" -> object
+	tries  map[string]int  // id -> attempts (for concretisation only)
 }
 
 func key(id string, ver int) string { return fmt.Sprintf("%s#%d", id, ver) }
@@ -174,6 +175,13 @@ func (w *World) closedSince(before map[string]int64) []string {
 // Apply performs the action on the real broker and classifies the outcome.
 func (w *World) Apply(a *Action) Result {
 	ctx := context.Background()
+	w.napply++
+	if (a.A == "RPAN" || a.A == "RemoveNode") && (int(w.cfg.Seed)+w.napply)%3 == 0 {
+		// a caller that has given up already: the registry does what it does atomically all the same, and says so
+		c, cancel := context.WithCancel(ctx)
+		cancel()
+		ctx = c
+	}
 	switch a.A {
 	case "RegisterNode":
 		before := w.closeCounts()
